@@ -81,7 +81,7 @@ def required_cells(tier):
     return (['outcome:' + k for k in OUTCOMES] + ['outcome:import_failure'] + ['flavour:' + f for f in FLAVOURS] +
             ['pos:' + p for p in POSITIONS] + ['on_error:return', 'on_error:raise', 'verbose:0', 'verbose:3', 'mode:native', 'mode:pytest'] +
             ['import:' + k for k in IMPORT_KINDS] + ['loops-created-and-closed', 'result:returned', 'result:raised', 'side-effect:module-import:stdout',
-             'side-effect:global_exec:stdout'] +
+             'side-effect:global_exec:stdout', 'lazy-collection:parse_doctestables', 'lazy-collection:package_calldefs'] +
             (['dev-pass'] if tier == 'thorough' else []))
 
 
@@ -332,6 +332,68 @@ def all_combos():
     return list(itertools.product(sorted(OUTCOMES), sorted(FLAVOURS), POSITIONS, ON_ERROR, VERBOSE, MODES))
 
 
+def check_lazy_collection(ctx):
+    """
+    The collection generators consumed lazily, the way a custom runner does (take a doctest, run it, take the next): the
+    process state must be the caller's own whenever control is with the caller, also while a generator is suspended,
+    and what the caller changes in between (here: one more warning filter) must survive the generator's end.
+    """
+    from xdoctest import core
+    d = os.path.join(ctx.tmp, 'lazy_%d' % ctx.shard)
+    os.makedirs(d, exist_ok=True)
+    pkg = os.path.join(d, 'lazypkg_%d_zz' % ctx.shard)
+    os.makedirs(pkg, exist_ok=True)
+    body = 'def f{n}():\n    """\n    Example:\n        >>> print({n})\n        {n}\n    """\n\n'
+    for name, ns in (('__init__', (1,)), ('m_a', (2, 3)), ('m_b', (4,))):
+        with open(os.path.join(pkg, name + '.py'), 'w') as f:
+            f.write(''.join(body.format(n=n) for n in ns))
+    for what, make in (('parse_doctestables(package)', lambda: core.parse_doctestables(pkg, style='google')),
+                       ('parse_doctestables(module)', lambda: core.parse_doctestables(os.path.join(pkg, 'm_a.py'), style='google')),
+                       ('package_calldefs(package)', lambda: core.package_calldefs(pkg))):
+        ctx.evaluation()
+        case = {'kind': 'lazy-collection', 'what': what}
+        ctx.nontrivial(('lazy', what))
+        saved_filters = list(warnings.filters)
+        before = monitors.ProcState()
+        gen = make()
+        ok = True
+        steps = 0
+        try:
+            while True:
+                try:
+                    item = next(gen)
+                except StopIteration:
+                    break
+                steps += 1
+                d1 = before.diff(monitors.ProcState())
+                if d1:
+                    ctx.violation('state-leak', '%s, consumed lazily: with the generator suspended after item %d the process is '
+                                  'changed: %r' % (what, steps, d1), case)
+                    ok = False
+                    break
+                if hasattr(item, 'run'):
+                    item.mode = 'native'
+                    with contextlib.redirect_stdout(io.StringIO()):
+                        item.run(verbose=0, on_error='return')
+                if steps == 1:
+                    # the caller changes something of its own while the generator is suspended
+                    warnings.simplefilter('error', ResourceWarning)
+                    before = monitors.ProcState()
+            if ok:
+                d2 = before.diff(monitors.ProcState())
+                if d2:
+                    ctx.violation('state-leak', '%s, consumed lazily: after the generator ended the process differs from what '
+                                  'the caller left (a filter the caller installed in between must survive): %r' % (what, d2), case)
+                    ok = False
+        finally:
+            warnings.filters[:] = saved_filters
+            if hasattr(warnings, '_filters_mutated'):
+                warnings._filters_mutated()
+        ctx.event('lazy_collection_steps', steps)
+        if ok and steps >= 2:
+            ctx.cell('lazy-collection:' + what.split('(')[0])
+
+
 def run_shard(ctx):
     warnings.simplefilter('ignore')
     combos = all_combos()
@@ -343,6 +405,8 @@ def run_shard(ctx):
             check_doctest(ctx, *combos[i])
     if ctx.shard in (0, 1):
         check_imports(ctx)
+    if ctx.shard in (4 % ctx.nshards, 5 % ctx.nshards):
+        check_lazy_collection(ctx)
     if ctx.shard in (2 % ctx.nshards, 3 % ctx.nshards):
         check_side_effect_sources(ctx)
     if not ctx.quick() and ctx.shard == 0:
@@ -423,6 +487,8 @@ def replay(case, ctx):
         dev_pass_from_parent(ctx)
     elif case['kind'] == 'side-effect-source':
         check_side_effect_sources(ctx)
+    elif case['kind'] == 'lazy-collection':
+        check_lazy_collection(ctx)
     else:
         check_imports(ctx)
 
